@@ -167,6 +167,29 @@ def holderPolicy (c : Chan) (n info : Nat) (policyOk : Bool) : Res :=
   else if n = c.next ∧ c.closed then .errPolicy            -- channel is closing
   else .ok
 
+/-- the HTLC loop of `Channel::check_holder_tx_signatures`: `for ndx in 0..recomposed_tx.htlcs().len()` verifies
+    `counterparty_htlc_sigs[ndx]` against the HTLC transaction rebuilt for HTLC `ndx`.  `sigs[i]` = does the
+    `i`-th SUPPLIED signature verify against the `i`-th HTLC (real ECDSA verification, a harness fact per
+    signature).  Fewer signatures than HTLCs: the index expression panics when the loop gets there (after every
+    earlier one verified); surplus signatures are never looked at. -/
+def checkHtlcSigs : Nat → List Bool → Res
+  | 0, _ => .ok
+  | _ + 1, [] => .panic                         -- `counterparty_htlc_sigs[ndx]` out of bounds
+  | k + 1, b :: rest => if b then checkHtlcSigs k rest else .errPolicy   -- policy-revoke-new-commitment-signed
+
+/-- `Channel::check_holder_tx_signatures`: the commitment signature against the funding sighash first
+    (`commitOk`), then the HTLC loop over the `nHtlc` HTLCs of the recomposed transaction -/
+def checkSigs (commitOk : Bool) (nHtlc : Nat) (htlcSigs : List Bool) : Res :=
+  if !commitOk then .errPolicy else checkHtlcSigs nHtlc htlcSigs
+
+/-- what `validate_holder_commitment_tx(_phase2)` meets after the policy checks, computed from the per-signature
+    facts: the signature check, then the node-wide payment check (`payOk`) that follows it -/
+def sigFactOf (commitOk : Bool) (nHtlc : Nat) (htlcSigs : List Bool) (payOk : Bool) : SigFact :=
+  match checkSigs commitOk nHtlc htlcSigs with
+  | .ok => if payOk then .valid else .validUnpaid
+  | .panic => .oob
+  | _ => .invalid
+
 /-- `validate_holder_commitment_tx` / `_phase2` on a ready channel -/
 def validate (c : Chan) (n info : Nat) (sigs : SigFact) (policyOk : Bool) : R :=
   if getPoint c n ≠ .ok then fail c .errPolicy
